@@ -244,17 +244,38 @@ def build_c(x, reg, rng=None, int_series=False, colorder=0):
     k = x["k"]
     if k == "d":
         d = _dict_classes()[x.get("cls", "dict")]()
-        for key, i in zip(x["keys"], x["items"]):
-            d[key] = build_c(i, reg, rng, int_series, colorder)
+        for j, (key, i) in enumerate(zip(x["keys"], x["items"])):
+            d[key] = build_c(i, reg, rng, int_series, colorder + 2 * j)
         return d
-    if k == "l":
-        return [build_c(i, reg, rng, int_series, colorder) for i in x["items"]]
+    if k == "l":        # (colorder + 2 j: the members of one collection get different array dtypes)
+        return [build_c(i, reg, rng, int_series, colorder + 2 * j) for j, i in enumerate(x["items"])]
     if k == "t":
-        return tuple(build_c(i, reg, rng, int_series, colorder) for i in x["items"])
+        return tuple(build_c(i, reg, rng, int_series, colorder + 2 * j) for j, i in enumerate(x["items"]))
+    if k == "a":
+        return build_array(x, colorder)
     if k == "f" and rng is None and colorder % 2 == 1 and len(x["c"]) > 1:
         cols = list(zip(x["c"], x["v"]))[::-1]
         return pd.DataFrame({c: np.array([uncell(v) for v in col], dtype=float) for c, col in cols}, index=index_of(x["t"]))
     return build(x, reg, rng, int_series=int_series)
+
+
+def array_dtypes(x):
+    """the numpy dtypes in which the abstract array x can be rendered without changing a value: a boolean array if its
+    cells are booleans; float64 / float32 always (the cells are small integers and halves); integer dtypes when every
+    cell is a finite integer"""
+    cells = x["v"]
+    if cells and all(c[0] == "b" for c in cells):
+        return ['bool']
+    out = ['float64', 'float32']
+    if all(c[0] == "f" and c[1][1] == 1 for c in cells):
+        out += ['int64', 'int32']
+    return out
+
+
+def build_array(x, pick=0):
+    """the dtype is a matter of rendering (no part of the abstract array): the pick-th admissible one"""
+    ds = array_dtypes(x)
+    return np.array([uncell(c) for c in x["v"]], dtype=ds[(pick // 2) % len(ds)])
 
 
 def dict_class(o):
